@@ -125,6 +125,34 @@ theorem progress (memo0 : K → Bool) (b : Nat) (trace : List Ev) (s : St)
   | executed => exact crit t (by simp [hp, inCrit])
   | stored => exact crit t (by simp [hp, inCrit])
 
+/-! ### why the cache's methods must be atomic (the situation before fix F9)
+
+    `put` without a lock is (at least) two steps: make room for the entry (evict the key's old entry, pop
+    least-recently-used entries), then insert it and add its size to the usage counter. If two threads putting the same
+    memento-only entry both finish the first step before either does the second, the counter ends at twice what the one
+    resident entry accounts for and the key sits twice in the recency queue: the invariant of C06 is lost. This is the
+    schedule `[(0,8),(1,∞),(0,∞)]` found on the real class by `c09.py` family B. -/
+def putRoom (s : Cache.State) (k : Cache.Key) (size : Nat) : Cache.State :=
+  let s := Cache.evict s k
+  Cache.makeRoom size s.lru.length s
+
+def putInsert (s : Cache.State) (k : Cache.Key) (mem v size : Nat) (hasResult : Bool) : Cache.State :=
+  let e : Cache.Entry := { size, mem, val := v, hasValue := hasResult }
+  Cache.touchStamp { s with cache := s.cache ++ [(k, e)], lru := s.lru ++ [k], usage := s.usage + size } k
+
+/-- the two halves, run back to back, are `putCore` -/
+theorem putCore_eq_halves (s : Cache.State) (k : Cache.Key) (mem v size : Nat) (hr : Bool) :
+    Cache.putCore s k mem v size hr = putInsert (putRoom s k size) k mem v size hr := rfl
+
+/-- interleaved as room(A), room(B), insert(A), insert(B) the accounts are wrong -/
+theorem unsynchronised_put_breaks_accounting :
+    let k : Cache.Key := ⟨1, 1⟩
+    let s0 := Cache.init 4096
+    let s := putInsert (putInsert (putRoom (putRoom s0 k 16) k 16) k 1 0 16 false) k 2 0 16 false
+    s.usage = 32 ∧ (Cache.lookup s.cache k).map (·.size) = some 16 ∧ s.lru = [k, k] ∧ ¬ s.lru.Nodup ∧
+      ¬ (Cache.keys s.cache).Nodup := by
+  decide
+
 /-! ### non-vacuity: two threads race for the same call on a cold store (one executes, the other is served after waiting
     for the mutex), a third is served by the pre-check afterwards -/
 def exTrace : List Ev :=
